@@ -60,6 +60,22 @@ def rule_no_double(report, prog):
             report.check(len(ins) == 1, 'C17-R1', key(f.qname, 'socket inserted at the address just created', a), f.loc(st),
                          'socket is not inserted into the SAP created at sap[%s]' % a)
     report.floor('C17-R1', n, 3)
+    # a bind puts the application's socket only into the access point it has just created (behind the proof that the slot was free):
+    # every insert_socket() in the bind functions is dominated by a store of a new ServiceAccessPoint at the same index -- inserting
+    # into an access point that exists already hands one address to two open sockets
+    for name in ('_bind_by_none', '_bind_by_addr', '_bind_by_name'):
+        f = prog.func(LLC + '.' + name)
+        cfg = cfg_of(f)
+        for c in ast.walk(f.node):
+            if isinstance(c, ast.Call) and isinstance(c.func, ast.Attribute) and c.func.attr == 'insert_socket':
+                st = enclosing_stmt(c)
+                node = cfg_node_for(cfg, st)
+                recv = norm(c.func.value)
+                stores = [cfg.node_of(s_) for s_, bb in find(f.node, 'self.sap[$A] = ServiceAccessPoint($A, self)') if 'self.sap[%s]' % norm(bb['A']) == recv]
+                okk = node is not None and any(sn is not None and cfg.dominates(sn, node) for sn in stores)
+                report.check(okk, 'C17-R1', key(f.qname, 'socket inserted only into the access point created by this bind', recv), f.loc(st),
+                             '%s can insert the socket into an access point that exists already (%s): the address is handed to a second open socket'
+                             % (name, norm(st)))
     # all three run under the link lock
     for name in ('_bind_by_none', '_bind_by_addr', '_bind_by_name'):
         f = prog.func(LLC + '.' + name)
